@@ -6,3 +6,9 @@ from .data import *
 from .encrypt import *
 from .packet import *
 from .protocol import *
+
+# `from .protocol import *` also copies the names of the protocol package's own submodules, among
+# them `packet` (eolib.protocol.net.packet), over the `eolib.packet` subpackage: bind it again.
+from importlib import import_module as _import_module
+
+packet = _import_module(".packet", __name__)
